@@ -332,7 +332,14 @@ pub fn selected_dynamic_filter(iq: &IndexedQuery, vid: Vid, prop: &str) -> &'sta
             _ => return None,
         })
     }
-    let rel: Vec<&'static str> = v.filters.iter().filter_map(name).filter(|(_, l, r)| l.field_name.as_ref() == prop && matches!(r, Argument::Tag(_))).map(|(n, _, _)| n).collect();
+    // only tags whose vertex (or fold) has already been resolved when the edge into `vid` is being
+    // resolved count: the execution frontier there is Excluded(vid)
+    let resolved = |r: &Argument| match r {
+        Argument::Tag(trustfall_core::ir::FieldRef::ContextField(c)) => c.vertex_id < vid,
+        Argument::Tag(trustfall_core::ir::FieldRef::FoldSpecificField(f)) => f.fold_root_vid < vid,
+        _ => false,
+    };
+    let rel: Vec<&'static str> = v.filters.iter().filter_map(name).filter(|(_, l, r)| l.field_name.as_ref() == prop && resolved(r)).map(|(n, _, _)| n).collect();
     for want in [&["="][..], &["one_of"][..], &["<", "<=", ">", ">="][..]] {
         if let Some(x) = rel.iter().find(|o| want.contains(o)) {
             return x;
